@@ -191,6 +191,19 @@ CHECKS["C25"] = dict(
     technique="SMT (z3) check of partial-order axioms over relation tables regenerated from the real operators",
     design="§4 C25", engine="E3", note=TABLE_NOTE)
 
+XH_NOTE = ("Trusted base: the harness module under units/ (state construction, reference rule), CrossHair 0.0.110 and z3. "
+           "The claim is 'Confirmed over all paths' within the pre: bounds of each condition; counterexamples are replayed "
+           "concretely in a fresh interpreter before being reported.")
+CHECKS["C20"] = dict(
+    level="proof",
+    text="One dispatch step from every registry state (k types registered before an algorithm class is first used, j "
+         "after; k, j <= 2; late types chained or not; both instantiation orders): CrossHair executes the real "
+         "MultiFunction / Transformer constructors and dispatch symbolically in the dispatched type index and confirms "
+         "over all paths that a fresh instance picks the nearest ancestor's handler (incl. handlers named after late "
+         "types) and agrees with an instance built from pristine caches.",
+    technique="CrossHair symbolic execution (z3) of the real dispatch code from directly constructed registry states",
+    design="§4 C20", engine="E2", note=XH_NOTE)
+
 NOT_APPLICABLE = {
     "C11": "Signature injectivity is injectivity of string renderings (repr/str, numpy array printing, float "
            "formatting) composed with sha512: CrossHair cannot confirm it, z3/cvc5 string theories answer unknown, "
